@@ -52,9 +52,13 @@ def conditions(tier, seed):
     if tier == 'thorough':
         import random
         rnd = random.Random(seed)
+        seen6 = set()
         for k in range(48):
             a = rnd.choice(v)
             third = rnd.choice(BIN if a[1] in OPERANDS else OPERANDS + UNY + ['LPAREN'])
+            if tuple(a + [third]) in seen6:
+                continue
+            seen6.add(tuple(a + [third]))
             out.append(Cond('bmc_N6_%s' % '_'.join(a + [third]), 'c07_bmc.py', dict(N=6, cubes=[a + [third]], timeout_ms=1500000),
                             kind='script', timeout=2400, bound='length 6, prefix %s' % ' '.join(a + [third]), symbolic=['t4..t6']))
     ns = 64 if tier == 'quick' else 8
